@@ -53,13 +53,29 @@ func checkQName(s string) (msg string) {
 			msg = fmt.Sprintf("ParseDevice parts (%q,%q,%q) on a valid name", dv, dc, dn)
 			return
 		}
-		// the part validators on the whole string
-		if (parser.ValidateVendorName(s) == nil) != model.VendorOrClass(s) {
-			msg = "ValidateVendorName disagrees with the grammar"
-		} else if (parser.ValidateClassName(s) == nil) != model.VendorOrClass(s) {
-			msg = "ValidateClassName disagrees with the grammar"
-		} else if (parser.ValidateDeviceName(s) == nil) != model.DeviceName(s) {
-			msg = "ValidateDeviceName disagrees with the grammar"
+		// the part validators on the whole string; twice, in both orders: the verdict
+		// is a function of the string, not of what was validated before
+		for round := 0; round < 2 && msg == ""; round++ {
+			if (parser.ValidateVendorName(s) == nil) != model.VendorOrClass(s) {
+				msg = fmt.Sprintf("ValidateVendorName disagrees with the grammar (call round %d)", round)
+			} else if (parser.ValidateClassName(s) == nil) != model.VendorOrClass(s) {
+				msg = fmt.Sprintf("ValidateClassName disagrees with the grammar (call round %d)", round)
+			} else if (parser.ValidateDeviceName(s) == nil) != model.DeviceName(s) {
+				msg = fmt.Sprintf("ValidateDeviceName disagrees with the grammar (call round %d)", round)
+			}
+		}
+		if msg == "" && parser.IsQualifiedName(s) != mok {
+			msg = "IsQualifiedName changed its verdict after the parts were validated separately"
+		}
+		// a valid device name used as vendor and as class, and a valid vendor used as device name
+		if msg == "" && model.DeviceName(s) && len(s) <= 40 {
+			for _, q := range []string{s + "/cls=dev", "vendor/" + s + "=dev", "vendor/cls=" + s} {
+				_, _, _, qok := model.QualifiedName(q)
+				if parser.IsQualifiedName(q) != qok {
+					msg = fmt.Sprintf("IsQualifiedName(%q) = %v, the grammar says %v", q, !qok, qok)
+					break
+				}
+			}
 		}
 	})
 	if err != nil {
